@@ -54,6 +54,12 @@ CLAIMED = {
    "Seeded search over interleavings at the cache protocol's synchronisation points with losing races forced rather than hoped for; oracles: sequential equivalence of Get/DecodeStream, identical Go value per (extractor, reference, type), linearizability of the Decode/DecodeExclusive/StoreOrLoadPair history (porcupine), exclusive-decode invariants (no overlap, one success, waiters do not re-run), scheduler-detected deadlock, pool discipline, transient I/O faults must not poison the cache, independent files must not interfere through package state.",
    "The cooperative scheduler serialises everything, so data races between two yield points are invisible to it by construction (stated in the evidence); yield points are derived from the working tree by cmd/instr at check time (no hook committed to /repo), so moved or added lock sites are picked up automatically. Small schedule spaces are sampled, not enumerated.",
    "DESIGN.md section 4 C18"),
+
+ "C05": ("exploration",
+   "deterministic simulation with storage-corruption faults: seeded base documents (high-level packages and object soups) on a simulated disk, 0..4 injected faults (bit flips, overwrites, zeroed sectors, misdirected/duplicated blocks, torn tail, token-level structure edits, reference rewiring), full read-side walk inside a testing/synctest bubble",
+   "Seeded search over corrupted images x reader modes x read personalities; oracles: no panic, termination (step caps + confirmed wall-clock watchdog), TotalAlloc proxy bound, and exact detection of goroutines left behind when the walk returns (synctest bubble).",
+   "Memory is bounded by a coarse measured proxy; CPU-only hangs rely on the watchdog; the walker covers the reading APIs named in the property (NewReader, SequentialScan/MakeReader, Get, DecodeStream, pagetree, page.Decode, extract.Font, GlyphNameMapping, reader.ProcessPage, outline, name tree).",
+   "DESIGN.md section 4 C05"),
 }
 
 PENDING = {}
@@ -101,7 +107,7 @@ def main():
     print("claimed:", sorted(CLAIMED), "n/a:", [x["property_id"] for x in na])
 
 PENDING = {p: "not claimed yet: the simulation harness for this property is still under construction (see DESIGN.md section 4); it is applicable and will be claimed once its check is sound on the unchanged tree" for p in
-           ["C04", "C05", "C11", "C15", "C16"]}
+           ["C04", "C11", "C15", "C16"]}
 
 if __name__ == "__main__":
     main()
